@@ -37,6 +37,9 @@ def _generic_rules():
 
 
 def translate(toks, rules, log, what="", generic=True):
+    if generic:
+        from .rules import normalize_chains
+        toks = normalize_chains(toks, log)
     for r in list(rules) + (_generic_rules() if generic else []):
         try:
             toks = r.apply(toks, log)
